@@ -30,6 +30,7 @@ fn main() {
     util::install_stall_watchdog(&cfg);
     match cfg.check.as_str() {
         "c03" => c03::run(&cfg),
+        "c08" => c16::truncation_kinds(&cfg),
         "c05" => c05::run(&cfg),
         "c09" => c09::run(&cfg),
         "c11" => c11::run(&cfg),
